@@ -359,6 +359,12 @@ func (s *safety) valLower(v ssa.Value, seen map[*ssa.Phi]bool) (int64, bool) {
 				}
 				return l, ok
 			}
+			// a sum of two values with known lower bounds (1 + len(x))
+			lx, okx := s.valLower(x.X, seen)
+			ly, oky := s.valLower(x.Y, seen)
+			if okx && oky && lx >= 0 && ly >= 0 && lx < 1<<61 && ly < 1<<61 {
+				return lx + ly, true
+			}
 		}
 	}
 	if l, _, ok := typeRange(v.Type()); ok && l >= 0 {
